@@ -8,7 +8,7 @@ From Coq Require Import List Arith Bool.
 Require Import TT.Model.Str TT.Model.C06Serde TT.Spec.C06SerdeRule.
 Require Import TT.Model.C06Print TT.Spec.TsLex TT.Spec.TsModule TT.Spec.C06Keys.
 Require Import TT.Proofs.C06Strings TT.Proofs.C06Proofs TT.Proofs.C06Main TT.Proofs.C06Print.
-Require Import TT.Proofs.LexFacts TT.Proofs.C06Lists.
+Require Import TT.Proofs.LexFacts TT.Proofs.C06Lists TT.Proofs.C06File.
 Import ListNotations.
 Local Open Scope list_scope.
 
@@ -115,6 +115,32 @@ Example C06_ex_props : Forall (fun x => key_choice_ok x /\ lexes comma_next (m_v
 Proof. exact ex_props_ok. Qed.
 Example C06_ex_escape_code : escape_js_code (L "a\""b") = L "a\\\""b" /\ zenum_list [L "A"; L "b""c"] = L """A"", ""b\""c""".
 Proof. vm_compute. repeat split. Qed.
+
+(* whole declarations, string to names: for every identifier N and every list of members / names, the text the
+   templates print (partials/interface.tera, partials/enum.tera, zod partials/schema.ts.tera, generate_enum_schema;
+   keys by ts_key, literals by the five-replace escape) is read by the specification lexer, the module parser and
+   the reader of Spec/C06Keys (read_keys, the function the run-time check applies to types.ts) as exactly the
+   list of serialized names. member_ok / prop_ok: a bare key is made of identifier bytes, the value text lexes in
+   front of the separator into error-free tokens and the type / expression parser reads them as one unit *)
+Theorem C06_read_interface : forall n (l : list (member * (list tk * ty))), ident n = true -> Forall member_ok l ->
+  read_keys n (interface_text n (map fst l)) = Some [DInterface (map m_name (map fst l))].
+Proof. exact read_interface. Qed.
+Theorem C06_read_alias : forall n names, ident n = true -> names <> [] ->
+  read_keys n (alias_text n names) = Some [DLiterals names].
+Proof. exact read_alias. Qed.
+Theorem C06_read_zobject : forall n (l : list (member * (list tk * ex))), ident n = true -> Forall prop_ok l ->
+  read_keys n (zobject_text n (map fst l)) = Some [DZObject (map m_name (map fst l))].
+Proof. exact read_zobject. Qed.
+Theorem C06_read_zenum : forall n names, ident n = true -> names <> [] ->
+  read_keys n (zenum_text n names) = Some [DZEnum names].
+Proof. exact read_zenum. Qed.
+Example C06_ex_files : Forall member_ok ex_members /\ Forall prop_ok ex_props /\
+  read_keys (L "T0") (interface_text (L "T0") (map fst ex_members)) = Some [DInterface [L "user-id"; L "firstName"; L "a""b\c"]] /\
+  read_keys (L "T0") (zenum_text (L "T0") [L "IN_PROGRESS"; L "a\"; L "x""y"]) = Some [DZEnum [L "IN_PROGRESS"; L "a\"; L "x""y"]] /\
+  interface_text (L "T0") (map fst ex_members) =
+    L "export interface T0 {" ++ [LF] ++ L "  ""user-id""?: string;" ++ [LF] ++ L "  firstName: number;" ++ [LF] ++ L "  ""a\""b\\c"": string;" ++ [LF] ++ L "}".
+Proof. split; [exact ex_members_file|]. split; [exact ex_props_file|]. split; [exact (proj1 ex_files)|].
+  split; [exact (proj2 (proj2 (proj2 ex_files)))|vm_compute; reflexivity]. Qed.
 
 (* attributes other than rename and skip (skip_serializing_if = s, default, default = s, ...) change
    nothing: two containers that differ only in such attributes emit the same names, outside the classes *)
@@ -293,6 +319,10 @@ Print Assumptions C06_zobject_props_read.
 Print Assumptions C06_lex_zenum_list.
 Print Assumptions C06_zenum_array_read.
 Print Assumptions C06_expr_reads_lits.
+Print Assumptions C06_read_interface.
+Print Assumptions C06_read_alias.
+Print Assumptions C06_read_zobject.
+Print Assumptions C06_read_zenum.
 Print Assumptions C06_other_attrs_inert.
 Print Assumptions C06_spec_ignores_others.
 Print Assumptions C06_field_rule.
